@@ -61,7 +61,7 @@ def min_valid(variant):
 def encodings_for(variant):
     if variant in ("ws2dgu", "ws2dpgu", "ws2dwcv", "ws2dwcvp"):
         return wc.ENCODINGS
-    return wc.ENCODINGS[:3]
+    return wc.ENCODINGS[:4]
 
 
 def run_variant(variant, y, nd, params):
@@ -100,7 +100,7 @@ def check_batch(variant, params, idx, letters, p):
         results[enc] = (out, lopt, y, nd)
         p.count("encodings", evaluations=N)
         # too few valid cells: passthrough, lambda 0 (only where the placeholder is int16-representable)
-        if enc in ("below", "inside", "above") and (~enough).any():
+        if enc in ("below", "inside", "above", "zero") and (~enough).any():
             few = ~enough
             bad = (out[few] != y[few].astype(np.int16)).any(axis=1)
             if lopt is not None:
@@ -208,11 +208,14 @@ def accessor(ctx, letters):
     for name, fn, minv, special in calls:
         enough = valid.sum(axis=1) >= minv
         base = None
-        encs = [("below", "int16"), ("inside", "int16"), ("above", "int16")]
+        encs = [("below", "int16"), ("inside", "int16"), ("above", "int16"), ("zero", "int16"), ("zero+attr", "int16")]
         if special:
             encs += [("nan", "float64"), ("+inf", "float64"), ("-inf", "float32")]
         for enc, dtype in encs:
-            da, nd = cube(enc, dtype)
+            da, nd = cube("zero" if enc == "zero+attr" else enc, dtype)
+            if enc == "zero+attr":
+                # the nodata argument of the call wins over whatever the attribute says
+                da = da.assign_attrs(nodata=-9999)
             try:
                 with np.errstate(all="ignore"):
                     res = fn(da, nd)
